@@ -458,10 +458,10 @@ func genC14(p *plan.Plan, r *plan.Rng, tier string) {
 		p.Mode = "typesweep"
 		p.Note = "first use of the types listed in the binary's type table, in a seeded order, with reflect-created types in between"
 		stride := 3
-		if !quick {
-			stride = 1
+		if !quick || i < 6 {
+			stride = 1 // neighbours in the type table must meet in one process
 		}
-		sw := &plan.Sweep{Order: []string{"asc", "desc", "random"}[i%3], Seed: r.U64(), Stride: stride, Offset: i / 3, Reflect: r.Range(2, 12)}
+		sw := &plan.Sweep{Order: []string{"asc", "desc", "random"}[i%3], Seed: r.U64(), Stride: stride, Offset: i / 3, Reflect: r.Range(2, 12), Phased: i%2 == 1}
 		if i >= nsweep {
 			sw.Order = "random"
 			sw.Limit = r.Range(50, 400)
